@@ -17,6 +17,8 @@ for d in sorted(glob.glob(os.path.join(ROOT, "seeded", "*"))):
         caught, runs = "(superseded)", "the code it edited was restructured by later repairs; kept against the current tree as " + m["superseded_by"]
     elif m.get("confirmed") and not all(m["confirmed"].get(k) for k in ("demo_passes_without_change", "applies_to_repo_head", "demo_fails_with_change", "existing_suite_passes_with_change_all_six_modules")):
         caught, runs = "(not a confirmed change at the current HEAD)", m.get("note") or "its demonstration no longer fails with the change applied (a later repair changed the behaviour it relied on); kept for the record, not counted"
+    elif m.get("recheck_note"):
+        caught, runs = "(does not apply to the current HEAD)", m["recheck_note"] + ": a later repair edited the same lines; kept for the record, not counted"
     rows.append("| `seeded/%s` | %s | %s | %s |" % (os.path.basename(d), m["breaks_property"], caught, runs))
 table = ["", "## Appendix: seeded changes and the checks that catch them", "",
          "Produced by fresh sub-agents that saw only the text of one property and a scratch worktree; each change",
